@@ -264,6 +264,73 @@ impl Seg {
                 wal.mark_topic_dirty(&topic_name(t[1]));
                 "ok".into()
             }
+            // C11: consume everything the instance will deliver, for every topic it knows
+            // (recovered topic names included) and every topic of the registry.
+            //   DRAIN R <cap>   read_next(topic, true) until None / error / cap entries
+            //   DRAIN BR <cap>  batch_read_for_topic(topic, 1 MiB, true, None) until empty / error / cap
+            // one line: <topic-hex>=<ident>,<ident>,...,<end> joined by '|', topics sorted by bytes
+            "DRAIN" => {
+                let batch = t.get(1).map(|s| *s == "BR").unwrap_or(false);
+                let cap: usize = t.get(2).and_then(|s| s.parse().ok()).unwrap_or(10000);
+                let mut topics: Vec<String> = wal.get_topic_entry_counts().into_keys().collect();
+                for k in self.reg.keys() {
+                    if !topics.contains(k) {
+                        topics.push(k.clone());
+                    }
+                }
+                topics.sort_by(|a, b| a.as_bytes().cmp(b.as_bytes()));
+                let mut parts: Vec<String> = Vec::new();
+                for topic in topics.iter() {
+                    let mut items: Vec<String> = Vec::new();
+                    let end;
+                    loop {
+                        if items.len() >= cap {
+                            end = "cap".to_string();
+                            break;
+                        }
+                        if batch {
+                            match catch_unwind(AssertUnwindSafe(|| wal.batch_read_for_topic(topic, 1 << 20, true, None))) {
+                                Ok(Ok(v)) => {
+                                    if v.is_empty() {
+                                        end = "none".to_string();
+                                        break;
+                                    }
+                                    for e in v.iter() {
+                                        items.push(self.ident(topic, &e.data));
+                                    }
+                                }
+                                Ok(Err(e)) => {
+                                    end = errkind(&e);
+                                    break;
+                                }
+                                Err(_) => {
+                                    end = "panic".to_string();
+                                    break;
+                                }
+                            }
+                        } else {
+                            match catch_unwind(AssertUnwindSafe(|| wal.read_next(topic, true))) {
+                                Ok(Ok(None)) => {
+                                    end = "none".to_string();
+                                    break;
+                                }
+                                Ok(Ok(Some(e))) => items.push(self.ident(topic, &e.data)),
+                                Ok(Err(e)) => {
+                                    end = errkind(&e);
+                                    break;
+                                }
+                                Err(_) => {
+                                    end = "panic".to_string();
+                                    break;
+                                }
+                            }
+                        }
+                    }
+                    items.push(end);
+                    parts.push(format!("{}={}", util::hex_of_bytes(topic.as_bytes()), items.join(",")));
+                }
+                format!("drain:{}", parts.join("|"))
+            }
             _ => "badcase".into(),
         };
         Some(res)
@@ -310,7 +377,21 @@ struct Kid {
 }
 
 fn spawn(exe: &std::path::Path, dir: &PathBuf, mode: &str, backend: &str, sched: &str, reg: &[String]) -> Kid {
-    let mut child = Command::new(exe)
+    // WH_VALGRIND=<log-file-prefix>: run the lifetime under memcheck (C11); errors end the
+    // process with exit code 99 and are listed in <prefix>.<pid>
+    let mut cmd = match std::env::var("WH_VALGRIND") {
+        Ok(pfx) => {
+            let mut c = Command::new("valgrind");
+            c.arg("-q")
+                .arg("--error-exitcode=99")
+                .arg("--exit-on-first-error=yes")
+                .arg(format!("--log-file={}.%p", pfx))
+                .arg(exe);
+            c
+        }
+        Err(_) => Command::new(exe),
+    };
+    let mut child = cmd
         .arg("seg")
         .arg(dir)
         .arg(mode)
@@ -341,9 +422,33 @@ fn ask(k: &mut Kid, line: &str) -> String {
     }
 }
 
-fn finish(mut k: Kid) {
+fn finish(mut k: Kid) -> String {
     drop(k.tx);
-    let _ = k.child.wait();
+    match k.child.wait() {
+        Ok(st) => {
+            use std::os::unix::process::ExitStatusExt;
+            match (st.code(), st.signal()) {
+                (Some(c), _) => format!("exit:{}", c),
+                (None, Some(sg)) => format!("signal:{}", sg),
+                _ => "exit:?".into(),
+            }
+        }
+        Err(_) => "exit:?".into(),
+    }
+}
+
+fn copy_tree(src: &std::path::Path, dst: &std::path::Path) -> std::io::Result<()> {
+    std::fs::create_dir_all(dst)?;
+    for e in std::fs::read_dir(src)? {
+        let e = e?;
+        let to = dst.join(e.file_name());
+        if e.file_type()?.is_dir() {
+            copy_tree(&e.path(), &to)?;
+        } else {
+            std::fs::copy(e.path(), &to)?;
+        }
+    }
+    Ok(())
 }
 
 /// dispatcher
@@ -387,6 +492,9 @@ pub fn engine_main(base: &str) {
                     backend = v.into();
                 } else if let Some(v) = kv.strip_prefix("sched=") {
                     sched = v.into();
+                } else if let Some(v) = kv.strip_prefix("adopt=") {
+                    // C11: start from a copy of a prepared (possibly damaged) directory tree
+                    copy_tree(std::path::Path::new(v), &dir).expect("adopt: copy failed");
                 }
             }
             reg.clear();
@@ -412,6 +520,24 @@ pub fn engine_main(base: &str) {
                 }
             }
             _ => {}
+        }
+        if t[0] == "REG" {
+            // C11: payloads offered in an earlier life of an adopted directory
+            reg.push(line.to_string());
+            if let Some(k) = kid.as_mut() {
+                let _ = writeln!(k.tx, "{}", line);
+            }
+            writeln!(out, "ok").unwrap();
+            continue;
+        }
+        if t[0] == "END" {
+            // C11: clean shutdown of the current lifetime; reports how the process ended
+            let r = match kid.take() {
+                Some(k) => finish(k),
+                None => "nocase".into(),
+            };
+            writeln!(out, "{}", r).unwrap();
+            continue;
         }
         if t[0] == "RESTART" {
             if let Some(k) = kid.take() {
